@@ -575,6 +575,7 @@ doTbl(char **tok, int ntok) {
 
 #include "lvh_dump.h"
 #include "lvh_meta.h"
+#include "lvh_hyph.h"
 
 int
 main(int argc, char **argv) {
@@ -699,6 +700,7 @@ main(int argc, char **argv) {
 			printf("OK\n");
 		} else if (doDumpOp(tok, ntok)) {
 		} else if (doMetaOp(tok, ntok)) {
+		} else if (doHyphOp(tok, ntok)) {
 		} else {
 			printf("BADOP\n");
 		}
